@@ -366,6 +366,25 @@ def history_programs(dev):
     h = _hdr("history/long", dev, base_labware(), wlmax=5, flags={"comp": False, "norm": False, "fullhist": True})
     h["ops"] = ops
     progs.append(h)
+    # the history API used directly: log() and condense_log() with a given label, "first", "last" and the default
+    h = _hdr("history/api", dev, base_labware(), wlmax=5, flags={"comp": False, "norm": False, "fullhist": True})
+    h["ops"] = [
+        {"op": "add", "lw": P, "wells": L([(0, 1)]), "vols": S(3), "label": "one"},
+        {"op": "add", "lw": P, "wells": L([(1, 1)]), "vols": S(4), "label": "two"},
+        {"op": "remove", "lw": P, "wells": L([(0, 1)]), "vols": S(1), "label": None},
+        {"op": "log", "lw": P, "label": "checkpoint"},
+        {"op": "condense", "lw": P, "n": 2, "label": "last two"},
+        {"op": "add", "lw": P, "wells": L([(2, 1)]), "vols": S(2), "label": "three"},
+        {"op": "add", "lw": P, "wells": L([(2, 2)]), "vols": S(2), "label": "four"},
+        {"op": "condense", "lw": P, "n": 3, "label": "first"},
+        {"op": "add", "lw": T, "wells": L([(0, 2)]), "vols": S(5), "label": "t1"},
+        {"op": "remove", "lw": T, "wells": L([(1, 2)]), "vols": S(2), "label": "t2"},
+        {"op": "condense", "lw": T, "n": 2, "label": "last"},
+        {"op": "log", "lw": T, "label": None},
+        {"op": "condense", "lw": T, "n": 1},
+        {"op": "condense", "lw": T, "n": 3, "label": None},
+    ]
+    progs.append(h)
     return progs
 
 
